@@ -67,7 +67,7 @@ PROPS = {
                    'Partial: invariance of the handler-visible events and of mutating configurations (C02_full_statement is kept visible, not proved) is decided by the correspondence run on chunking groups '
                    '(the model is executed under every chunking of a group and must agree with the implementation call by call) plus the group oracle on the implementation.',
         level_note='Trusted as C01. Group oracle: same configuration and input under 5 chunkings must give identical normalised events (text chunks of a node merged, exactly one last_in_text_node) and output.'),
-    'C06': dict(coq=['props/C06.vo'], families=[('pairs', 1600, 30000)], projections=['full'], oracle=oracle_c06,
+    'C06': dict(coq=['props/C06.vo'], families=[('pairs', 1600, 30000)], projections=['full'], oracle=oracle_c06, classify=classify_c06,
         technique=COROLL,
         level_text='Theorem C06_output_independent_of_observers: any two observer controllers (H and H u O drive completely different scan/lex switching) emit the same bytes for the same input under any chunkings. '
                    'Partial: equality of the events H itself receives (scanner simulates lexer) is decided by the correspondence run on (H, H u O) pairs and the pair oracle.',
@@ -149,12 +149,13 @@ PROPS = {
                    'end handler are decided by comparing the complete handler-invocation sequence of the real rewriter with the extracted reference scope model (text chunks collapsed per node; end-tag handlers of one end tag and '
                    'end handlers compared as sets) and by the correspondence run.',
         level_note='Trusted as C04.'),
-    'C13': dict(coq=['props/C13.vo'], families=[('td', 1200, 30000), ('enc', 1500, 40000), ('utf8', 300, 6000)], projections=['events', 'results'], oracle=oracle_c13,
+    'C13': dict(coq=['props/C13.vo'], families=[('td', 1200, 30000), ('enc', 1500, 40000), ('utf8', 300, 6000), ('sk', 800, 20000)], projections=['events', 'results', 'out_bytes'], oracle=oracle_c13,
         technique='Coq proof about the executable model of TextDecoder for an arbitrary streaming decoder satisfying recorded laws (proofs/TextDecoderProof.v); extraction-based correspondence run of the '
                   'model instantiated with an executable UTF-8 decoder; for all 36 encodings the harness compares what handlers read / what the sink receives with encoding_rs whole-buffer decode / encode',
         level_text='Theorem C13_text_chunks_are_the_whole_buffer_decode: for every streaming decoder obeying decoder_laws (assumed behaviour of encoding_rs, satisfiable: C13_laws_are_satisfiable), every text node and every split into '
                    'lexemes (cuts inside multi-byte characters, buffer refills), the chunks handed to text handlers concatenate to the whole-buffer decode of the node, their ranges tile the node and exactly the final chunk is last_in_text_node. '
-                   'Partial: encoding_rs itself (the 36 codecs), the encoder side (numeric character references), names/attribute values/comment text, and the meta-charset switch are outside the model; they are decided on the implementation '
+                   'C13_utf8_fragments_written_to_a_sink_are_the_string / C13_sink_refuses_only_invalid_utf8: content a handler writes to a StreamingHandlerSink as UTF-8 byte fragments cut anywhere is accepted and reaches the output as that string, and a write is refused only for bytes that do not continue the stream validly (model StreamSink.v, tied by SK correspondence cases and an independent validator oracle). '
+                   'Partial: encoding_rs itself (the 36 codecs), the encoder side for non-UTF-8 documents (numeric character references), names/attribute values/comment text, and the meta-charset switch are outside the model; they are decided on the implementation '
                    'by the level-3 harness oracle (strings read vs Encoding::decode_without_bom_handling of the token bytes, sink bytes vs Encoding::encode, set_encoding positions, refusal of non-ASCII-compatible encodings is by type). '
                    'The model of TextDecoder is tied to the code by the correspondence run on text-only UTF-8 documents (chunk text merged per node, ranges, last flags).',
         level_note='Trusted as C01 plus: decoder_laws as the contract of encoding_rs::Decoder::decode_to_str; harness/src/l3.rs (reference computations with encoding_rs one-shot decode/encode); the Coq UTF-8 decoder instance is a model of encoding_rs validated only by the correspondence run.'),
